@@ -180,6 +180,11 @@ type World struct {
 	ruleRounds uint64
 	// curLag is the node that currently hears nothing under the "rotlag" profile (-1: none)
 	curLag int
+	// GreedyDecide: adversarial strategy "decide whatever is decidable, at once" (kills.go)
+	GreedyDecide bool
+	killQueue    []killTarget
+	killed       map[string]bool // instance/value already realised
+	victims      map[int]bool
 	// Inbox: validated messages not yet handed to the participant (per node index)
 	Inbox map[int][]*staged
 	// rebroadcasting is set while a RequestRebroadcast is being served
@@ -193,7 +198,7 @@ type Stats struct {
 	Sways, SkipsRound, SkipsDecide, Rebroadcasts                                   int
 	LateCommitDecisions                                                            int
 	HijackConverges, HijackCommits, ForgedFloods, SuppVariants, Poisons            int
-	Staged, StagedReceived, StaleEvidence                                          int
+	Staged, StagedReceived, StaleEvidence, Kills, KillDecisions                    int
 }
 
 type tracer struct{ w *World }
@@ -311,6 +316,9 @@ func (h *host) RequestBroadcast(mb *gpbft.MessageBuilder) error {
 	}
 	n.W.Evidence.Add(msg)
 	n.W.enqueueAll(msg, false)
+	if n.W.GreedyDecide && msg.Vote.Phase == gpbft.DECIDE_PHASE {
+		n.W.noteDecide(msg)
+	}
 	return nil
 }
 
